@@ -129,7 +129,7 @@ def _stress(ctx, name, cases):
 
 # -------------------------------------------------------------------- TLC parts
 def _expect_violation(ctx, module, cfg, name):
-    r = ctx.tlc(module, cfg, allow_violation=True)
+    r = ctx.tlc(module, cfg, allow_violation=True, workers=1)
     if r.violated != name:
         raise MachineryError("%s/%s: expected TLC to refute %s (model sanity), got %r" % (module, cfg, name, r.violated))
     return r
